@@ -119,11 +119,14 @@ func c16Obstacles(R *core.Rand, view *tree.Tree, items []refs.Item, inc, exc []s
 		prior.Entries = kept
 		var ob tree.Entry
 		if e.Type == tree.Dir {
-			switch R.Intn(3) {
+			switch R.Intn(4) {
 			case 0:
 				ob = tree.Entry{Path: e.Path, Type: tree.File, Data: []byte("OBSTACLE")}
 			case 1:
 				ob = tree.Entry{Path: e.Path, Type: tree.Symlink, Perm: 0777, Target: "zz-nowhere"}
+			case 2:
+				// a link to itself: whatever is looked up below it is ELOOP
+				ob = tree.Entry{Path: e.Path, Type: tree.Symlink, Perm: 0777, Target: tree.Base(e.Path)}
 			default:
 				ob = tree.Entry{Path: e.Path, Type: tree.Symlink, Perm: 0777, Target: "."}
 			}
@@ -234,7 +237,7 @@ func c16Run(c *core.Ctx) *core.Result {
 		}
 	}
 	srcDir := filepath.Join(c.Dir, "src")
-	dstDir := filepath.Join(c.Dir, "dst")
+	dstDir := filepath.Join(c.Dir, core.Pick(core.NewRand(core.Mix(c.Seed, "C16-root-names", c.Index)), []string{"dst", "src-dst"}))
 	os.Mkdir(srcDir, 0755)
 	os.Mkdir(dstDir, 0755)
 	if err := tree.Materialise(srcDir, t); err != nil {
@@ -387,6 +390,23 @@ func c16Run(c *core.Ctx) *core.Result {
 	srcRootArg := srcDir + core.Pick(core.NewRand(core.Mix(c.Seed, "C16-srcroot-spelling", c.Index)), []string{"", "", "", "/", "/.", "//", "/./"})
 	if srcRootArg != srcDir {
 		r.Count("source_roots_spelled_unclean", 1)
+	}
+	// another copy in the same process, beforehand, whose pattern lists read
+	// the same when joined with commas (one element "p1,p2" for the elements
+	// p1, p2): what this call selects is a function of its own arguments
+	if len(inc)+len(exc) >= 2 && core.NewRand(core.Mix(c.Seed, "C16-priming-copy", c.Index)).P(1, 6) {
+		pd := filepath.Join(c.Dir, "dst-priming")
+		os.Mkdir(pd, 0755)
+		pci := fs.CopyInfo{CopyDirContents: ci.CopyDirContents}
+		if len(inc) > 0 {
+			pci.IncludePatterns = []string{strings.Join(inc, ",")}
+		}
+		if len(exc) > 0 {
+			pci.ExcludePatterns = []string{strings.Join(exc, ",")}
+		}
+		fs.Copy(context.Background(), srcDir, srcArg, pd, "/", fs.WithCopyInfo(pci))
+		os.RemoveAll(pd)
+		r.Count("copies_after_a_priming_copy_with_joined_pattern_lists", 1)
 	}
 	var cerr error
 	if unpriv {
